@@ -53,13 +53,15 @@ extern "C" void h_c20_total() {
   int nmax = sc->get_command_n_args_max(fname);
   int nargs = verif_choice("nargs", nmax + 2);
   int ak = verif_choice("argkind", 4);
+  // thorough: the kind of the second argument is chosen independently of the first
+  int ak2 = verif_param("independent_args", 0) && nargs >= 2 ? verif_choice("argkind2", 4) : ak;
   verif_reach("total");
   const char *w[10]; int n = 0;
   w[n++] = "cv";
   if (strncmp(fname, "cv_", 3) == 0) w[n++] = fname + 3;
   else if (strncmp(fname, "colvar_", 7) == 0) { w[n++] = "colvar"; w[n++] = "d"; w[n++] = fname + 7; }
   else { w[n++] = "bias"; w[n++] = (k & 1) ? "hg" : "h"; w[n++] = fname + 5; }
-  for (int i = 0; i < nargs && n < 10; i++) w[n++] = POOL[ak][i % 3];
+  for (int i = 0; i < nargs && n < 10; i++) w[n++] = POOL[i == 1 ? ak2 : ak][i % 3];
   int r = run_words(n, w);
   verif_out_i64("ret", r);
   // a command line with too few or too many arguments is an error, never an action
